@@ -23,15 +23,17 @@ var SkipInitPrefixes = []string{
 	"runtime", "internal/", "syscall", "os", "reflect", "sync", "unsafe", "time", "fmt",
 	"math/rand", "crypto/", "log", "go.uber.org/zap", "go.uber.org/multierr", "expvar", "google.golang.org/",
 	"go.yaml.in/", "github.com/siderolabs/gen/concurrent", "github.com/cosi-project/runtime/api",
-	"github.com/grpc-ecosystem", "golang.org/x/", "encoding/json", "encoding/xml", "encoding/gob", "encoding/asn1", "regexp", "net", "hash/", "compress/", "github.com/klauspost/",
+	"github.com/grpc-ecosystem", "golang.org/x/", "encoding/json", "encoding/xml", "encoding/gob", "encoding/asn1", "net", "hash/", "compress/", "github.com/klauspost/",
 	"github.com/ProtonMail/", "github.com/cloudflare/", "go.etcd.io/", "unique", "weak",
-	"text/", "html/", "mime", "embed", "unicode", "iter", "github.com/planetscale/vtprotobuf/types", "github.com/siderolabs/protoenc",
+	"text/", "html/", "mime", "embed", "iter", "github.com/planetscale/vtprotobuf/types", "github.com/siderolabs/protoenc",
 }
 
 // zeroOK lists globals of packages with skipped init that may be read as zero values.
 var zeroOKGlobals = map[string]bool{
 	"crypto/rand.Reader":                      true, // io.ReadFull on it is an intrinsic
 	"go.uber.org/zap/zapcore.DefaultClock":    true, // only read by a logger that writes; harness loggers are no-ops
+	// time zones: a nil *Location means UTC; all virtual times are UTC
+	"time.Local": true, "time.UTC": true, "time.utcLoc": true, "time.localLoc": true,
 }
 
 func ShouldSkipInit(path string) bool {
@@ -1254,4 +1256,13 @@ func init() {
 	externals["math/rand/v2.Float64"] = func(fr *frame, args []value) value { return float64(0.5) }
 	externals["math/rand.Int63n"] = func(fr *frame, args []value) value { return int64(0) }
 	externals["math/rand.Intn"] = func(fr *frame, args []value) value { return 0 }
+}
+
+func init() {
+	// zap.Stack captures the host stack through pools initialised in zap's init: a skipped field instead
+	stackField := func(fr *frame, args []value) value {
+		return zero(fr.fn.Signature.Results().At(0).Type())
+	}
+	externals["go.uber.org/zap.Stack"] = stackField
+	externals["go.uber.org/zap.StackSkip"] = stackField
 }
